@@ -25,7 +25,7 @@ TABLE = {
        "reject; slack provenance; that the lax/test switch is closed; the "
        "handler inventory; and that session_info picks SessionNotOnOrAfter "
        "else Conditions NotOnOrAfter. Timestamp parsing and clock arithmetic "
-       "at run time are not decided.",
+       "at run time are not decided. R7: no function on the time-checking paths reads the clock or converts a time tuple through the process's local zone (mktime/localtime/naive now), directly or through a time_util/validate helper that does.",
   ref="Part 3 C04"),
  "C05": dict(
   tech="flag-sensitive CFG search under assumed test outcomes, for-all/exists "
@@ -60,7 +60,7 @@ TABLE = {
        "Policy.filter returns a filtered copy and always applies configured "
        "attribute_restrictions, and the error branch. Two genuine violations "
        "are recorded as known findings. Regex semantics and entity-category "
-       "contents are not decided. Policy.filter: the unfiltered copy is assigned only under `_ava is None` once a filter stage may have run.",
+       "contents are not decided. Policy.filter: the unfiltered copy is assigned only under `_ava is None` once a filter stage may have run. R6: a composite (tuple) entity-category key releases its attributes only if every member category is among the SP's.",
   ref="Part 3 C07"),
  "C09": dict(
   tech="derivation of returned destinations, equality-guard recognition, "
@@ -71,7 +71,7 @@ TABLE = {
        "that the fallthrough raises and UnknownSystemEntity is never caught, "
        "that the entity consulted is the request Issuer, that response_args "
        "uses only pick_binding's answer, and the store-side "
-       "unknown/unsupported/binding-filter logic.",
+       "unknown/unsupported/binding-filter logic. R5: every typed accessor of the store asks service() for the caller's binding (or the documented default) and lets its refusal propagate.",
   ref="Part 3 C09"),
  "C10": dict(
   tech="dominance/flag-sensitive pipeline rule, derivation of must and "
@@ -113,7 +113,7 @@ TABLE.update({
        "constructor chain assigns every member, that the module maps agree "
        "with the classes, and that the generic reader and writer in "
        "SamlBase/ExtensionContainer use the same six channels. Equality of "
-       "arbitrary instance trees and byte stability are not decided. Writer: a declared attribute is written whenever the member is not None (the only value guard).",
+       "arbitrary instance trees and byte stability are not decided. Writer: a declared attribute is written whenever the member is not None (the only value guard). The received attribute name / child element is looked up and stored unchanged (no re-binding of the key).",
   ref="Part 3 C12"),
  "C13": dict(
   tech="schema-table reflection + exhaustive type-name/cardinality rules, "
@@ -189,7 +189,7 @@ TABLE.update({
        "quoted, new ids derive from fresh randomness with a collision retry, "
        "persistent lookup precedes issue and compares both qualifiers, the "
        "manage-name-id sequence, no undefined names. Histories and run-time "
-       "uniqueness are not decided.",
+       "uniqueness are not decided. R7: a NameID mapping request returns a stored identifier only under equality of format and SPNameQualifier with the request's policy.",
   ref="Part 3 C18"),
  "C19": dict(
   tech="derivation of every index into Cache._db, dominance of the expiry "
